@@ -88,6 +88,7 @@ let digest_ev (h : int64) (e : cev) : int64 =
 let gop_of (tok : string) : gop =
   match tok.[0] with
   | 'r' -> GReserve (n_of_dec (rest tok))
+  | 's' -> GSync (n_of_dec (rest tok))
   | 'o' -> GStore true
   | 'f' -> GStore false
   | 'c' -> GCrash
@@ -149,6 +150,8 @@ let run_model (line : string) =
       List.iter (fun tok ->
         if tok = "c" then begin
           let (s', e) = g_step true !s GCrash in s := s'; evs := e :: !evs
+        end else if tok.[0] = 's' then begin
+          let (s', e) = g_step true !s (GSync (n_of_dec (rest tok))) in s := s'; evs := e :: !evs
         end else begin
           let n = String.length tok in
           let r = n_of_dec (String.sub tok 1 (n - 2)) and ok = tok.[n - 1] = 'o' in
